@@ -19,11 +19,17 @@ def run_one(m):
         for sub in ("benches", "examples"):
             if os.path.isdir(os.path.join(REPO, sub)):
                 shutil.copytree(os.path.join(REPO, sub), os.path.join(repo, sub))
-        p = os.path.join(repo, m["file"])
-        s = open(p).read()
-        if s.count(m["old"]) != 1:
-            return (m["id"], "skipped", "edit does not apply (%d matches)" % s.count(m["old"]), {})
-        open(p, "w").write(s.replace(m["old"], m["new"]))
+        if m.get("patch"):
+            # an independently produced seeded change (seeded/<id>/patch.diff), applied to the scratch copy
+            r = subprocess.run(["git", "apply", "--whitespace=nowarn", m["patch"]], cwd=repo, stdout=subprocess.PIPE, stderr=subprocess.STDOUT, text=True)
+            if r.returncode != 0:
+                return (m["id"], "skipped", "patch does not apply: %s" % r.stdout[:200], {})
+        else:
+            p = os.path.join(repo, m["file"])
+            s = open(p).read()
+            if s.count(m["old"]) != 1:
+                return (m["id"], "skipped", "edit does not apply (%d matches)" % s.count(m["old"]), {})
+            open(p, "w").write(s.replace(m["old"], m["new"]))
         ev = os.path.join(d, "evidence")
         env = dict(os.environ, NFSA_REPO=repo, NFSA_EVIDENCE_DIR=ev)
         res = {}
@@ -62,6 +68,15 @@ def main():
     if args[:1] == ["--json"]:
         as_json = True; args = args[1:]
     ms = json.load(open(os.path.join(HERE, "mutants.json")))
+    # the independently seeded changes take part as well: each must be caught by the property it was written against
+    sd = os.path.join(VERIF, "seeded")
+    for sid in sorted(os.listdir(sd)) if os.path.isdir(sd) else []:
+        mp = os.path.join(sd, sid, "meta.json")
+        pp = os.path.join(sd, sid, "patch.diff")
+        if os.path.exists(mp) and os.path.exists(pp):
+            meta = json.load(open(mp))
+            if meta.get("confirmed") and meta.get("breaks"):
+                ms.append({"id": "seed:" + sid, "patch": pp, "props": [meta["breaks"]], "expect": [meta["breaks"]]})
     if args:
         sel = [m for m in ms if m["id"] in args or any(a in m["props"] for a in args)]
         # when filtering by property, only run that property's check on each mutant
